@@ -130,6 +130,42 @@ func verifPathString(p *path) string {
 	return "path{" + strings.Join(s, ",") + "}"
 }
 
+// VerifRoutes lists what a snapshot routes, independent of identities and of
+// the shape of the trie: one "VERB template -> method" line per binding, one
+// "handlers method n" line per method and the number of connections, sorted.
+func VerifRoutes(p unsafe.Pointer) []string {
+	s := (*state)(p)
+	if s == nil {
+		return nil
+	}
+	var out []string
+	var walk func(p *path, prefix string)
+	walk = func(p *path, prefix string) {
+		if p == nil {
+			return
+		}
+		for verb, m := range p.methods {
+			out = append(out, verb+" "+prefix+" -> "+m.name)
+		}
+		if p.methodAll != nil {
+			out = append(out, "* "+prefix+" -> "+p.methodAll.name)
+		}
+		for k, next := range p.segments {
+			walk(next, prefix+k)
+		}
+		for _, v := range p.variables {
+			walk(v.next, prefix+"/{"+v.name+"}")
+		}
+	}
+	walk(s.path, "")
+	for name, hs := range s.handlers {
+		out = append(out, fmt.Sprintf("handlers %s %d", name, len(hs)))
+	}
+	out = append(out, fmt.Sprintf("conns %d", len(s.conns)))
+	sort.Strings(out)
+	return out
+}
+
 // VerifHTTPBodyCodec returns the built-in google.api.HttpBody stream codec.
 func VerifHTTPBodyCodec() StreamCodec { return codecHTTPBody{} }
 
